@@ -348,8 +348,12 @@ func cliStream(meta *common.Meta, tier, genDir string, s1 []*fw.Pkg, runs int) {
 		var firstCode int
 		reported := map[string]bool{}
 		for r := 0; r < nr; r++ {
-			so, se, code, err := common.RunSplit(240*time.Second, tg.dir, common.GoEnv(), bin, tg.args...)
+			so, se, code, err := fw.RunPatient(240*time.Second, tg.dir, common.GoEnv(), bin, tg.args...)
 			total++
+			if fw.IsTimeout(err) {
+				meta.Notes = append(meta.Notes, fmt.Sprintf("CLI repetition stage: %v hit the wall-clock limit twice (machine load? no observation, not a verdict): %v", tg.args, err))
+				break
+			}
 			if err != nil {
 				meta.Fail("C02/cli/run", "go-critic check did not finish: "+err.Error(), tg.args)
 				break
@@ -534,8 +538,12 @@ func analysisStream(meta *common.Meta, tier, outDir string) {
 	rawReported := false
 	n := 0
 	for r := 0; r < runs; r++ {
-		so, se, code, err := common.RunSplit(240*time.Second, ws, common.GoEnv("GOMAXPROCS=16"), bin, args...)
+		so, se, code, err := fw.RunPatient(240*time.Second, ws, common.GoEnv("GOMAXPROCS=16"), bin, args...)
 		n++
+		if fw.IsTimeout(err) {
+			meta.Notes = append(meta.Notes, fmt.Sprintf("analyzer repetition stage: %v hit the wall-clock limit twice (no observation, not a verdict): %v", args, err))
+			break
+		}
 		if err != nil {
 			meta.Fail("C02/analyzer/run", "go-critic-analysis did not finish: "+err.Error(), args)
 			break
@@ -600,7 +608,7 @@ func analysisStream(meta *common.Meta, tier, outDir string) {
 	}
 	// the twin front-end must obey the same report order
 	if twin := filepath.Join(common.BinDir(), "gocritic-analysis"); fileExists(twin) {
-		so, se, _, err := common.RunSplit(240*time.Second, ws, common.GoEnv("GOMAXPROCS=16"), twin, args...)
+		so, se, _, err := fw.RunPatient(240*time.Second, ws, common.GoEnv("GOMAXPROCS=16"), twin, args...)
 		n++
 		if err == nil {
 			checkAnalysisOrder(meta, ws, se+"\n"+so)
@@ -709,12 +717,16 @@ func testVariantStream(meta *common.Meta, tier, outDir string) {
 		raws := make([]string, runs)
 		errs := make([]error, runs)
 		fw.Parallel(runs, func(r int) {
-			so, se, _, err := common.RunSplit(240*time.Second, ws, common.GoEnv("GOMAXPROCS=8"), bin, args...)
+			so, se, _, err := fw.RunPatient(240*time.Second, ws, common.GoEnv("GOMAXPROCS=8"), bin, args...)
 			raws[r], errs[r] = se+"\n"+so, err
 		})
 		total += runs
 		reportedSet, reportedRun := false, false
 		for r := 0; r < runs; r++ {
+			if fw.IsTimeout(errs[r]) {
+				meta.Notes = append(meta.Notes, fmt.Sprintf("test-variant stage: %s hit the wall-clock limit twice (no observation, not a verdict): %v", exe, errs[r]))
+				break
+			}
 			if errs[r] != nil {
 				meta.Fail("C02/analyzer/run", exe+" did not finish on the test-variant workspace: "+errs[r].Error(), args)
 				break
